@@ -6,7 +6,7 @@
 //
 // Script (one execution per data file):
 //
-//	{"ev":"reset","large":8,"small":2,"buf":2,"n":83,"unit":1,"ka":7,"kb":3,"real":false}
+//	{"ev":"reset","large":8,"small":2,"buf":2,"n":83,"unit":1,"ka":7,"kb":3,"real":false,"vol":false}
 //	{"ev":"encode"}
 //	{"ev":"reads","off":16,"sizes":[1,2,8,67]}
 //	{"ev":"rebuild","lost":[0,11]}
@@ -24,6 +24,8 @@
 // mount writes an .ecx with the given entries and opens the real EcVolume with its
 // 14 EcVolumeShards; needle runs EcVolume.LocateEcShardNeedle and reads the intervals
 // as Store.readOneEcShardInterval does for local shards (FindEcVolumeShard + ReadAt).
+//
+// "vol": true in the reset line: the life cycle of one real volume, see vol.go.
 //
 // A read mirrors EcVolume.LocateEcShardNeedle + Store.readOneEcShardInterval:
 // LocateData(large, small, DataShardsCount*<size of a shard file>, off, size),
@@ -382,8 +384,16 @@ func main() {
 	o := tr.ParseFlags()
 	w := tr.NewWriter(o.Out)
 	defer w.Close()
-	for _, ex := range tr.ReadScript(o.Script) {
+	execs := tr.ReadScript(o.Script)
+	volRes := runVolExecs(execs)
+	for xi, ex := range execs {
 		r := ex[0]
+		if tr.B(r, "vol") {
+			for _, e := range volRes[xi] {
+				w.Emit(e)
+			}
+			continue
+		}
 		dir, err := os.MkdirTemp("", "c06-")
 		if err != nil {
 			tr.Fatal("mkdtemp: %v", err)
@@ -399,6 +409,7 @@ func main() {
 		if !x.real && (x.buf <= 0 || x.large%int64(x.buf) != 0 || x.small%int64(x.buf) != 0) {
 			tr.Fatal("script: buf %d must divide the block sizes %d/%d", x.buf, x.large, x.small)
 		}
+		r["vol"] = false // every reset line carries the same fields (saved scripts from before the vol share lack it)
 		w.Emit(r)
 		encoded := false
 		for _, e := range ex[1:] {
